@@ -20,7 +20,7 @@ class Adapter(EnvAdapter):
         if tier == "quick":
             return [
                 # the default constructor (12x12, time limit 4000): growth, long chains
-                _c("default", 5, 45, ["seek", "seek", "mostly_masked", "random", "masked"]),
+                _c("default", 6, 40, ["seek", "random", "mostly_masked", "random", "seek", "random"]),
                 # small grids with the default time limit: completed and surrounded snakes are reached
                 _c("r2c2", 10, 12, mix, g(2, 2, 4000)),
                 _c("r2c3", 10, 25, mix, g(2, 3, 4000)),
